@@ -230,25 +230,58 @@ RE_CHECKING = re.compile(r"Checking harness ([A-Za-z0-9_:]+)\.\.\.")
 
 
 def _fill_from_log(results, text):
-    """Fallbacks the JSON does not carry: per-harness timeouts and CBMC crashes."""
+    """Fallback when the JSON export is missing or incomplete (run killed, CBMC crash): recover per-harness verdicts from
+    the terse log. Thread N's result block follows its 'Checking harness' line."""
     byq = {r.h.qualified: r for r in results.values()}
-    for m in re.finditer(r"Thread \d+: Checking harness ([A-Za-z0-9_:]+)\.\.\.", text):
-        pass
-    # harness timeout lines look like: "Thread 3: TIMEOUT: Harness <name> timed out after ..." (wording varies)
-    for q, r in byq.items():
-        short = r.h.name
-        for ln in text.split("\n"):
-            if ln.startswith("$ "):
-                continue
-            if short in ln and re.search(r"timed out|TIMEOUT|[Tt]imeout", ln):
-                if r.status in ("missing", "error", "failure") and not r.failed:
-                    r.status = "timeout"
-                    r.note = ln.strip()[:300]
-        if r.status == "missing":
-            # did CBMC die on it?
-            if re.search(r"CBMC failed|Status: ERROR|out of memory|memory exhausted", text) and short in text:
-                r.status = "error"
-                r.note = "CBMC error (see log)"
+    current = {}          # thread -> harness result
+    lines = text.split("\n")
+    i = 0
+    while i < len(lines):
+        ln = lines[i]
+        m = re.match(r"(?:Thread (\d+): )?Checking harness ([A-Za-z0-9_:]+)\.\.\.", ln)
+        if m:
+            current[m.group(1) or "0"] = byq.get(m.group(2))
+            i += 1
+            continue
+        m = re.match(r"Thread (\d+): \s*$", ln)
+        if m or ln.startswith("VERIFICATION RESULT:"):
+            th = m.group(1) if m else "0"
+            r = current.get(th)
+            block = []
+            j = i + 1
+            while j < len(lines) and not re.match(r"Thread \d+: ", lines[j]) and not lines[j].startswith("Manual Harness Summary") and not lines[j].startswith("Checking harness"):
+                block.append(lines[j])
+                j += 1
+            if r is not None and r.status == "missing":
+                btxt = "\n".join(block)
+                tm = re.search(r"Verification Time: ([0-9.]+)s", btxt)
+                if tm:
+                    r.duration_s = float(tm.group(1))
+                cm = re.search(r"\*\* (\d+) of (\d+) failed", btxt)
+                if cm:
+                    r.counts = {"total_properties": int(cm.group(2)), "failed": int(cm.group(1)), "passed": int(cm.group(2)) - int(cm.group(1))}
+                cv = re.search(r"\*\* (\d+) of (\d+) cover properties satisfied", btxt)
+                if "CBMC timed out" in btxt:
+                    r.status, r.note = "timeout", "CBMC timed out (per-harness timeout)"
+                elif "VERIFICATION:- SUCCESSFUL" in btxt:
+                    r.status = "success"
+                    if cv and cv.group(1) != cv.group(2):
+                        r.covers = [("(from log) %s of %s covers satisfied" % (cv.group(1), cv.group(2)), "Unsatisfiable")]
+                    r.note = "verdict recovered from the log (JSON export missing)"
+                elif "VERIFICATION:- FAILED" in btxt:
+                    fails = re.findall(r"Failed Checks: (.*)\n File: \"([^\"]*)\", line (\d+)", btxt)
+                    if fails:
+                        r.status = "failure"
+                        for d, f, l in fails:
+                            item = {"description": d.strip().strip('"'), "function": None, "file": f, "line": l, "category": "", "status": "Failure"}
+                            if "unwinding assertion" in d:
+                                r.unwinding_failed = True
+                            r.failed.append(item)
+                    else:
+                        r.status, r.note = "error", "CBMC failed without a verdict (out of memory / crash)"
+            i = j
+            continue
+        i += 1
 
 
 def run_single_playback_print(repo_copy, pkg, features, h, target_dir, log_path, timeout):
